@@ -2,7 +2,8 @@
 // line protocol of lean/Cppcms/C04/Driver.lean.
 //
 //   C flags entities tags props preds input
-//        flags    = three 0/1 digits: xhtml, comments_allowed, numeric_entities_allowed
+//        flags    = three 0/1 digits: xhtml, comments_allowed, numeric_entities_allowed; optionally followed by
+//                   :<encoding name hex>:<replacement char, decimal>  (rules::encoding(), repl_ch of the filter calls)
 //        entities = hex,hex,…|-          rules::add_entity
 //        tags     = hex:kind,…|-         rules::add_tag      (kind 0 invalid_tag 1 opening_and_closing 2 stand_alone 3 any_tag)
 //        props    = taghex:prophex:spec  spec b = add_boolean_property, i = add_integer_property,
@@ -16,6 +17,7 @@
 #include "common.h"
 #include <cppcms/xss.h>
 #include <booster/regex.h>
+#include <cppcms/encoding.h>
 #include <booster/shared_ptr.h>
 #include <map>
 #include <set>
@@ -59,6 +61,8 @@ static std::vector<std::string> split(std::string const &s,char sep)
 
 struct built {
 	xss::rules wrapped, direct;
+	std::string enc;
+	char repl;
 	std::map<int,pred> preds;
 	table_type table;
 	std::string err;
@@ -66,7 +70,16 @@ struct built {
 
 static bool build(std::vector<std::string> const &w,built &b)
 {
-	if(w[1].size()!=3) return false;
+	b.repl=0;
+	{
+		std::vector<std::string> ff=split(w[1],':');
+		if(ff.empty() || ff[0].size()!=3) return false;
+		if(ff.size()==3) {
+			if(!vh::unhex(ff[1].empty()?std::string("-"):ff[1],b.enc)) return false;
+			b.repl=char(atoi(ff[2].c_str()));
+		}
+		else if(ff.size()!=1) return false;
+	}
 	xss::rules *rs[2]={&b.wrapped,&b.direct};
 	std::vector<std::string> pl=split(w[5],',');
 	for(size_t i=0;i<pl.size();i++) {
@@ -86,6 +99,7 @@ static bool build(std::vector<std::string> const &w,built &b)
 		r.html(w[1][0]=='1' ? xss::rules::xhtml_input : xss::rules::html_input);
 		r.comments_allowed(w[1][1]=='1');
 		r.numeric_entities_allowed(w[1][2]=='1');
+		if(!b.enc.empty()) r.encoding(b.enc);
 		std::vector<std::string> l=split(w[2],',');
 		for(size_t i=0;i<l.size();i++) { std::string n; if(!vh::unhex(l[i],n)) return false; r.add_entity(n); }
 		l=split(w[3],',');
@@ -147,20 +161,20 @@ struct outcome {
 	bool v; bool brm,besc; std::string orm,oesc,frm,fesc; bool vrm,vesc; std::string err;
 };
 
-static outcome run_rules(xss::rules const &r,std::string const &x)
+static outcome run_rules(xss::rules const &r,std::string const &x,char repl)
 {
 	static const std::string untouched("\x01UNTOUCHED\x01");
 	outcome o;
 	char const *b=x.c_str(),*e=b+x.size();
 	o.v=xss::validate(b,e,r);
 	o.orm=untouched; o.oesc=untouched;
-	o.brm=xss::validate_and_filter_if_invalid(b,e,r,o.orm,xss::remove_invalid);
-	o.besc=xss::validate_and_filter_if_invalid(b,e,r,o.oesc,xss::escape_invalid);
+	o.brm=xss::validate_and_filter_if_invalid(b,e,r,o.orm,xss::remove_invalid,repl);
+	o.besc=xss::validate_and_filter_if_invalid(b,e,r,o.oesc,xss::escape_invalid,repl);
 	if(o.brm) { if(o.orm!=untouched) o.err="touched-rm"; o.orm.clear(); }
 	if(o.besc) { if(o.oesc!=untouched) o.err="touched-esc"; o.oesc.clear(); }
-	o.frm=xss::filter(b,e,r,xss::remove_invalid);
-	o.fesc=xss::filter(b,e,r,xss::escape_invalid);
-	if(o.frm!=xss::filter(x,r,xss::remove_invalid) || o.fesc!=xss::filter(x,r,xss::escape_invalid)) o.err="overload-mismatch";
+	o.frm=xss::filter(b,e,r,xss::remove_invalid,repl);
+	o.fesc=xss::filter(b,e,r,xss::escape_invalid,repl);
+	if(o.frm!=xss::filter(x,r,xss::remove_invalid,repl) || o.fesc!=xss::filter(x,r,xss::escape_invalid,repl)) o.err="overload-mismatch";
 	o.vrm=xss::validate(o.frm.c_str(),o.frm.c_str()+o.frm.size(),r);
 	o.vesc=xss::validate(o.fesc.c_str(),o.fesc.c_str()+o.fesc.size(),r);
 	return o;
@@ -177,6 +191,42 @@ static std::string show(outcome const &o)
 	return s;
 }
 
+// what the external encoding validator says (oracle for the model): per-byte mask for single-byte charsets,
+// verdicts / pre-filtered text for the strings of this case
+static bool enc_is_utf8(std::string const &e)
+{
+	std::string n;
+	for(size_t i=0;i<e.size();i++) { char c=e[i]; if(c>='A'&&c<='Z') c=c-'A'+'a'; if((c>='a'&&c<='z')||(c>='0'&&c<='9')) n+=c; }
+	return n=="utf8";
+}
+static std::string hex0(std::string const &s) { std::string h=vh::hex(s); return h=="-"?std::string(""):h; }
+static std::string enc_info(built const &b,std::string const &x,outcome const &o)
+{
+	if(b.enc.empty()) return "-";
+	std::string r;
+	if(enc_is_utf8(b.enc)) r="U";
+	else {
+		r="M:";
+		for(int k=0;k<256;k+=4) {
+			int v=0;
+			for(int j=0;j<4;j++) { char c=char(k+j); size_t n=0; if(encoding::valid(b.enc,&c,&c+1,n)) v|=(8>>j); }
+			r+="0123456789abcdef"[v];
+		}
+	}
+	std::string const *ss[3]={&x,&o.frm,&o.fesc};
+	for(int k=0;k<3;k++) {
+		std::string const &s=*ss[k];
+		size_t n=0;
+		bool v=encoding::valid(b.enc,s.c_str(),s.c_str()+s.size(),n);
+		r+=",V:"+hex0(s)+":"+(v?"1":"0");
+		std::string out;
+		bool v2=encoding::validate_or_filter(b.enc,s.c_str(),s.c_str()+s.size(),out,b.repl);
+		if(v2!=v) r+=",X:valid-vs-validate_or_filter-disagree";
+		if(!v2) r+=",P:"+hex0(s)+":"+hex0(out);
+	}
+	return r;
+}
+
 static std::string run(std::vector<std::string> const &w)
 {
 	if(w.size()!=7) return "bad-op";
@@ -185,13 +235,13 @@ static std::string run(std::vector<std::string> const &w)
 	if(w[0]=="C") {
 		std::string x;
 		if(!vh::unhex(w[6],x)) return "bad-op";
-		outcome o1=run_rules(b.wrapped,x);
-		outcome o2=run_rules(b.direct,x);
+		outcome o1=run_rules(b.wrapped,x,b.repl);
+		outcome o2=run_rules(b.direct,x,b.repl);
 		if(!o1.err.empty()) return o1.err;
 		if(!o2.err.empty()) return o2.err;
 		std::string s1=show(o1),s2=show(o2);
 		if(s1!=s2) return "direct-mismatch "+s1+" / "+s2;
-		return s1+" T="+table_str(b.table);
+		return s1+" T="+table_str(b.table)+" E="+enc_info(b,x,o1);
 	}
 	if(w[0]=="O") {
 		std::vector<std::string> q=split(w[6],',');
